@@ -316,3 +316,26 @@ package twcc
 //@        && m.arrivalTimes == old(m.arrivalTimes)
 //@        && (forall x int64 :: old(m.beginSequenceNumber) <= x && x < m.beginSequenceNumber ==> old(arrAt(m, x)) <= arrivalTimeLimit)
 //@   loop 1 decreases checkTo - m.beginSequenceNumber
+//@
+//@ # ---- the recorder (property C05): a recorded packet is stored under its unwrapped number, and the next feedback
+//@ # starts at or before it (so it will be covered), never before the map's window
+//@ pred recorderInv(r *Recorder) := atmInv(&r.arrivalTimeMap)
+//@     && (r.sequenceUnwrapper.init ==> r.sequenceUnwrapper.lastUnwrapped >= 0)
+//@     && (r.startSequenceNumber != nil && r.arrivalTimeMap.beginSequenceNumber < r.arrivalTimeMap.endSequenceNumber ==> deref(r.startSequenceNumber) >= r.arrivalTimeMap.beginSequenceNumber)
+//@
+//@ func (*Recorder).setStartSequenceNumber
+//@   modifies r.startSequenceNumber, all int64.*
+//@   ensures set: r.startSequenceNumber != nil && deref(r.startSequenceNumber) == sequenceNumber
+//@   ensures same_cell: old(r.startSequenceNumber) != nil ==> r.startSequenceNumber == old(r.startSequenceNumber)
+//@   ensures new_cell: old(r.startSequenceNumber) == nil ==> fresh(r.startSequenceNumber)
+//@
+//@ func (*Recorder).Record
+//@   requires inv: recorderInv(r) && arrivalTime >= 0
+//@   # assumption on histories: fewer than 2^59 packets
+//@   requires short_history: r.sequenceUnwrapper.init ==> r.sequenceUnwrapper.lastUnwrapped < (1 << 59)
+//@   modifies *
+//@   ensures inv: recorderInv(r)
+//@   ensures unwrapped_once: calls("Unwrap") == 1 && callarg("Unwrap", 1) == sequenceNumber
+//@   ensures start_set: r.startSequenceNumber != nil
+//@   ensures covered_by_next_feedback: arrAt(&r.arrivalTimeMap, callres("Unwrap", 0)) >= 0 ==> deref(r.startSequenceNumber) <= callres("Unwrap", 0)
+//@   ensures media_ssrc: r.mediaSSRC == mediaSSRC
